@@ -1083,4 +1083,321 @@ theorem decodeBody_esc (s : List Char) : decodeBody (escChars s) = some s := by
 theorem lexStr_quote (s rest : List Char) : lexStr (quote s ++ rest) = some (s, rest) := by
   simp [quote, lexStr, lexBody_esc, decodeBody_esc]
 
+/-! ## Prepare: hoisting a relationship kind matcher preserves meaning in conjunctive positions -/
+
+theorem and3_comm (a b : V3) : and3 a b = and3 b a := by
+  rcases a with _ | _ | _ <;> rcases b with _ | _ | _ <;> rfl
+theorem and3_assoc (a b c : V3) : and3 (and3 a b) c = and3 a (and3 b c) := op3_assoc .and a b c
+theorem and3_true_left (a : V3) : and3 (some true) a = a := op3_unit_left .and a
+theorem and3_true_right (a : V3) : and3 a (some true) = a := op3_unit_right .and a
+
+/-- all hoisted matchers hold (each is an any-of test) -/
+def allK (v : Val) : List (List String) → V3
+  | [] => some true
+  | ks :: r => and3 (evalKinds v edgeSym .or ks) (allK v r)
+
+theorem allK_append (v : Val) : ∀ (a b : List (List String)), allK v (a ++ b) = and3 (allK v a) (allK v b)
+  | [], b => by simp [allK, and3_true_left]
+  | x :: a, b => by simp [allK, allK_append v a b, and3_assoc]
+
+mutual
+theorem sites_neg : ∀ (e : Expr) (conj : Bool), sites true conj e = []
+  | .cmp _ _ _, _ => by simp [sites]
+  | .isNull _ _, _ => by simp [sites]
+  | .kinds _ _ _, _ => by simp [sites]
+  | .neg c, _ => by simp [sites, sites_neg c]
+  | .paren c, conj => by simp [sites, sites_neg c conj]
+  | .join op es, conj => by simp [sites, sitesList_neg es]
+theorem sitesList_neg : ∀ (es : List Expr) (conj : Bool), sitesList true conj es = []
+  | [], _ => by simp [sitesList]
+  | e :: es, conj => by simp [sitesList, sites_neg e conj, sitesList_neg es conj]
+end
+
+mutual
+theorem sites_false : ∀ (e : Expr) (neg : Bool), ∀ b ∈ sites neg false e, b = false
+  | .cmp _ _ _, _ => by simp [sites]
+  | .isNull _ _, _ => by simp [sites]
+  | .kinds ref _ _, neg => by
+    by_cases h : (ref = edgeSym && !neg) = true <;> simp [sites, h]
+  | .neg c, _ => by simp [sites, sites_neg c]
+  | .paren c, neg => by simpa [sites] using sites_false c neg
+  | .join op es, neg => by simpa [sites] using sitesList_false es neg
+theorem sitesList_false : ∀ (es : List Expr) (neg : Bool), ∀ b ∈ sitesList neg false es, b = false
+  | [], _ => by simp [sitesList]
+  | e :: es, neg => by
+    intro b hb
+    simp only [sitesList, List.mem_append] at hb
+    rcases hb with hb | hb
+    · exact sites_false e neg b hb
+    · exact sitesList_false es neg b hb
+end
+
+theorem sites_false_nil {e : Expr} {neg : Bool} (h : ∀ b ∈ sites neg false e, b = true) : sites neg false e = [] := by
+  cases hs : sites neg false e with
+  | nil => rfl
+  | cons b r =>
+    have h1 := h b (by simp [hs])
+    have h2 := sites_false e neg b (by simp [hs])
+    simp_all
+
+theorem sitesList_false_nil {es : List Expr} {neg : Bool} (h : ∀ b ∈ sitesList neg false es, b = true) :
+    sitesList neg false es = [] := by
+  cases hs : sitesList neg false es with
+  | nil => rfl
+  | cons b r =>
+    have h1 := h b (by simp [hs])
+    have h2 := sitesList_false es neg b (by simp [hs])
+    simp_all
+
+def isEmptyJoin : Expr → Bool
+  | .join _ [] => true
+  | _ => false
+
+/-- what the induction carries for one node -/
+structure PrepGood (v : Val) (neg conj inList : Bool) (e : Expr) (h : List (List String)) (r : Option Expr) : Prop where
+  ev : and3 (allK v h) (evalOpt v r) = eval v e
+  keep : inList = false → ∃ e', r = some e'
+  nos : sites neg conj e = [] → h = [] ∧ ∃ e', r = some e' ∧ isEmptyJoin e' = false
+  len : h.length = (sites neg conj e).length
+  emp : ∀ op, r = some (.join op []) → op = .and
+  ne : ∀ ks ∈ h, ks ≠ []
+
+structure PrepGoodList (v : Val) (neg c : Bool) (es : List Expr) (h : List (List String)) (es' : List Expr) : Prop where
+  len : h.length = (sitesList neg c es).length
+  ne : ∀ ks ∈ h, ks ≠ []
+  nos : sitesList neg c es = [] → h = [] ∧ es'.length = es.length ∧ ∀ op, evalList v op es' = evalList v op es
+  ev : c = true → and3 (allK v h) (evalList v .and es') = evalList v .and es
+
+theorem evalList_consOpt_and (v : Val) (r : Option Expr) (xs : List Expr) :
+    evalList v .and (consOpt r xs) = and3 (evalOpt v r) (evalList v .and xs) := by
+  cases r with
+  | none => simp [consOpt, evalOpt, and3_true_left]
+  | some x => simp [consOpt, evalOpt, evalList_cons, op3]
+
+theorem and3_swap (a b c : V3) : and3 (and3 a b) (and3 c d) = and3 (and3 a c) (and3 b d) := by
+  rcases a with _ | _ | _ <;> rcases b with _ | _ | _ <;> rcases c with _ | _ | _ <;> rcases d with _ | _ | _ <;> rfl
+
+mutual
+theorem prep_good (v : Val) : ∀ (e : Expr) (neg conj inList : Bool) (h : List (List String)) (r : Option Expr),
+    valid e = true → (∀ b ∈ sites neg conj e, b = true) → prep false neg inList e = some (h, r) →
+    PrepGood v neg conj inList e h r
+  | .cmp l op ro, neg, conj, inList, h, r, _, _, hp => by
+    simp only [prep, Option.some.injEq, Prod.mk.injEq] at hp
+    obtain ⟨rfl, rfl⟩ := hp
+    exact ⟨by simp [allK, evalOpt, and3_true_left], fun _ => ⟨_, rfl⟩, fun _ => ⟨rfl, _, rfl, rfl⟩, by simp [sites],
+      by intro op hh; simp at hh, by simp⟩
+  | .isNull l b, neg, conj, inList, h, r, _, _, hp => by
+    simp only [prep, Option.some.injEq, Prod.mk.injEq] at hp
+    obtain ⟨rfl, rfl⟩ := hp
+    exact ⟨by simp [allK, evalOpt, and3_true_left], fun _ => ⟨_, rfl⟩, fun _ => ⟨rfl, _, rfl, rfl⟩, by simp [sites],
+      by intro op hh; simp at hh, by simp⟩
+  | .kinds ref ks a, neg, conj, inList, h, r, hv, hs, hp => by
+    by_cases hc : (ref = edgeSym && !neg) = true
+    · -- hoisted
+      have hflag : (conj && !(a && decide (2 ≤ ks.length))) = true := hs _ (by simp [sites, hc])
+      cases inList with
+      | false => simp [prep, hc] at hp
+      | true =>
+        simp only [prep, hc, if_true, Option.some.injEq, Prod.mk.injEq] at hp
+        obtain ⟨rfl, rfl⟩ := hp
+        simp only [Bool.and_eq_true, decide_eq_true_eq] at hc
+        have hks : ks ≠ [] := by
+          intro hh; simp [valid, hh] at hv
+        refine ⟨?_, by simp, by simp [sites, hc], by simp [sites, hc], by intro op hh; simp at hh, by simpa using hks⟩
+        -- a kind matcher on r means "any of ks" whatever the exclusivity flag says? no: the flag matters
+        simp only [allK, evalOpt, and3_true_right, eval, hc.1]
+        cases a with
+        | false => rfl
+        | true =>
+          -- an exclusive matcher over the relationship variable is read by the rewriter as any-of as well
+          cases ks with
+          | nil => exact absurd rfl hks
+          | cons k ks' =>
+            cases ks' with
+            | nil => simp [evalKinds, op3, unit3]; rcases v.kind edgeSym k with _ | _ | _ <;> rfl
+            | cons k' ks'' => simp at hflag
+    · have hc' : (ref = edgeSym && !neg) = false := by simpa using hc
+      simp only [prep, hc', Bool.false_eq_true, if_false, Option.some.injEq, Prod.mk.injEq] at hp
+      obtain ⟨rfl, rfl⟩ := hp
+      exact ⟨by simp [allK, evalOpt, and3_true_left], fun _ => ⟨_, rfl⟩, fun _ => ⟨rfl, _, rfl, rfl⟩, by simp [sites, hc'],
+        by intro op hh; simp at hh, by simp⟩
+  | .neg c, neg, conj, inList, h, r, hv, hs, hp => by
+    simp only [valid] at hv
+    simp only [prep] at hp
+    cases hq : prep false true false c with
+    | none => simp [hq] at hp
+    | some p =>
+      obtain ⟨h0, r0⟩ := p
+      simp only [hq, Option.some.injEq, Prod.mk.injEq] at hp
+      obtain ⟨rfl, rfl⟩ := hp
+      have g := prep_good v c true false false h0 r0 hv (by simp [sites_neg]) hq
+      obtain ⟨rfl, c', rfl, _⟩ := g.nos (sites_neg c false)
+      have hev := g.ev
+      simp only [allK, evalOpt, and3_true_left] at hev
+      exact ⟨by simp [allK, evalOpt, and3_true_left, negExit, eval, hev], fun _ => ⟨_, rfl⟩,
+        fun _ => ⟨rfl, _, rfl, by simp [negExit, isEmptyJoin]⟩, by simp [sites, sites_neg],
+        by intro op hh; simp [negExit] at hh, by simp⟩
+  | .paren c, neg, conj, inList, h, r, hv, hs, hp => by
+    simp only [valid] at hv
+    simp only [prep] at hp
+    cases hq : prep false neg false c with
+    | none => simp [hq] at hp
+    | some p =>
+      obtain ⟨h0, r0⟩ := p
+      simp only [hq, Option.some.injEq, Prod.mk.injEq] at hp
+      obtain ⟨rfl, rfl⟩ := hp
+      have g := prep_good v c neg conj false h0 r0 hv (by simpa [sites] using hs) hq
+      obtain ⟨c', rfl⟩ := g.keep rfl
+      have hev := g.ev
+      simp only [evalOpt] at hev
+      simp only [Option.getD_some]
+      refine ⟨?_, ?_, ?_, by simpa [sites] using g.len, ?_, g.ne⟩
+      · -- ev
+        match c', hev, g.emp with
+        | .join op [], hev, hemp =>
+          have : op = .and := hemp op rfl
+          subst this
+          cases inList <;> simp [parenExit, evalOpt, eval, evalList_nil, unit3] at hev ⊢ <;> exact hev
+        | .join op [x], hev, _ =>
+          simpa [parenExit, evalOpt, eval, evalList_cons, evalList_nil, op3_unit_right] using hev
+        | .join op (x :: y :: zs), hev, _ => simpa [parenExit, evalOpt, eval] using hev
+        | .cmp _ _ _, hev, _ => simpa [parenExit, evalOpt, eval] using hev
+        | .isNull _ _, hev, _ => simpa [parenExit, evalOpt, eval] using hev
+        | .kinds _ _ _, hev, _ => simpa [parenExit, evalOpt, eval] using hev
+        | .neg _, hev, _ => simpa [parenExit, evalOpt, eval] using hev
+        | .paren _, hev, _ => simpa [parenExit, evalOpt, eval] using hev
+      · intro hi; subst hi
+        match c' with
+        | .join op [] => exact ⟨_, rfl⟩
+        | .join op [x] => exact ⟨_, rfl⟩
+        | .join op (x :: y :: zs) => exact ⟨_, rfl⟩
+        | .cmp _ _ _ => exact ⟨_, rfl⟩
+        | .isNull _ _ => exact ⟨_, rfl⟩
+        | .kinds _ _ _ => exact ⟨_, rfl⟩
+        | .neg _ => exact ⟨_, rfl⟩
+        | .paren _ => exact ⟨_, rfl⟩
+      · intro hn
+        obtain ⟨rfl, e', he', hne⟩ := g.nos (by simpa [sites] using hn)
+        simp only [Option.some.injEq] at he'
+        subst he'
+        refine ⟨rfl, ?_⟩
+        match c', hne with
+        | .join op [], hne => simp [isEmptyJoin] at hne
+        | .join op [x], _ => exact ⟨_, rfl, rfl⟩
+        | .join op (x :: y :: zs), _ => exact ⟨_, rfl, rfl⟩
+        | .cmp _ _ _, _ => exact ⟨_, rfl, rfl⟩
+        | .isNull _ _, _ => exact ⟨_, rfl, rfl⟩
+        | .kinds _ _ _, _ => exact ⟨_, rfl, rfl⟩
+        | .neg _, _ => exact ⟨_, rfl, rfl⟩
+        | .paren _, _ => exact ⟨_, rfl, rfl⟩
+      · intro op hh
+        match c', hh with
+        | .join op' [], hh => cases inList <;> simp [parenExit] at hh
+        | .join op' [x], hh => simp [parenExit] at hh
+        | .join op' (x :: y :: zs), hh => simp [parenExit] at hh
+        | .cmp _ _ _, hh => simp [parenExit] at hh
+        | .isNull _ _, hh => simp [parenExit] at hh
+        | .kinds _ _ _, hh => simp [parenExit] at hh
+        | .neg _, hh => simp [parenExit] at hh
+        | .paren _, hh => simp [parenExit] at hh
+  | .join op es, neg, conj, inList, h, r, hv, hs, hp => by
+    simp only [valid, Bool.and_eq_true, Bool.not_eq_true', List.isEmpty_eq_false_iff] at hv
+    simp only [prep] at hp
+    cases hq : prepList false neg es with
+    | none => simp [hq] at hp
+    | some p =>
+      obtain ⟨h0, es'⟩ := p
+      simp only [hq, Option.some.injEq, Prod.mk.injEq] at hp
+      obtain ⟨rfl, rfl⟩ := hp
+      have hs' : ∀ b ∈ sitesList neg (conj && decide (op = .and)) es, b = true := by simpa [sites] using hs
+      have g := prepList_good v es neg (conj && decide (op = .and)) h0 es' hv.2 hs' hq
+      have hlen : es.length ≠ 0 := by
+        intro hh; exact hv.1 (List.length_eq_zero_iff.mp hh)
+      by_cases hc : (conj && decide (op = .and)) = true
+      · have hop : op = .and := by simp only [Bool.and_eq_true, decide_eq_true_eq] at hc; exact hc.2
+        subst hop
+        have hev := g.ev hc
+        refine ⟨?_, ?_, ?_, by simpa [sites] using g.len, ?_, g.ne⟩
+        · cases es' with
+          | nil => cases inList <;> simp [joinExit, evalOpt, eval, evalList_nil, unit3] at hev ⊢ <;> exact hev
+          | cons x xs => simpa [joinExit, evalOpt, eval] using hev
+        · intro hi; subst hi; exact ⟨.join .and es', by simp [joinExit]⟩
+        · intro hn
+          obtain ⟨rfl, hl, _⟩ := g.nos (by simpa [sites] using hn)
+          have hne : es'.isEmpty = false := by
+            cases es' with
+            | nil => simp at hl; exact absurd hl.symm hlen
+            | cons _ _ => rfl
+          refine ⟨rfl, .join .and es', by simp [joinExit, hne], ?_⟩
+          cases es' with
+          | nil => simp at hne
+          | cons _ _ => rfl
+        · intro op' hh
+          by_cases hem : (es'.isEmpty && inList) = true
+          · simp [joinExit, hem] at hh
+          · have hem' : (es'.isEmpty && inList) = false := by simpa using hem
+            simp only [joinExit, hem', Bool.false_eq_true, if_false, Option.some.injEq, Expr.join.injEq] at hh
+            exact hh.1.symm
+      · have hc' : (conj && decide (op = .and)) = false := by simpa using hc
+        rw [hc'] at hs' g
+        have hnil := sitesList_false_nil hs'
+        obtain ⟨rfl, hl, hev⟩ := g.nos hnil
+        have hne : es'.isEmpty = false := by
+          cases es' with
+          | nil => simp at hl; exact absurd hl.symm hlen
+          | cons _ _ => rfl
+        have hsites : sites neg conj (.join op es) = [] := by simp [sites, hc', hnil]
+        refine ⟨by simp [joinExit, hne, allK, evalOpt, eval, and3_true_left, hev op], fun _ => ⟨.join op es', by simp [joinExit, hne]⟩,
+          fun _ => ⟨rfl, .join op es', by simp [joinExit, hne], ?_⟩, by simp [hsites], ?_, by simp⟩
+        · cases es' with
+          | nil => simp at hne
+          | cons _ _ => rfl
+        · intro op' hh
+          simp only [joinExit, hne, Bool.false_and, Bool.false_eq_true, if_false, Option.some.injEq, Expr.join.injEq] at hh
+          rw [hh.2] at hne; simp at hne
+theorem prepList_good (v : Val) : ∀ (es : List Expr) (neg c : Bool) (h : List (List String)) (es' : List Expr),
+    valids es = true → (∀ b ∈ sitesList neg c es, b = true) → prepList false neg es = some (h, es') →
+    PrepGoodList v neg c es h es'
+  | [], neg, c, h, es', _, _, hp => by
+    simp only [prepList, Option.some.injEq, Prod.mk.injEq] at hp
+    obtain ⟨rfl, rfl⟩ := hp
+    exact ⟨by simp [sitesList], by simp, fun _ => ⟨rfl, rfl, fun _ => rfl⟩, fun _ => by simp [allK, and3_true_left]⟩
+  | e :: es, neg, c, h, es', hv, hs, hp => by
+    simp only [valids_cons, Bool.and_eq_true] at hv
+    simp only [prepList] at hp
+    cases hq : prep false neg true e with
+    | none => simp [hq] at hp
+    | some p =>
+      cases hq2 : prepList false neg es with
+      | none => simp [hq, hq2] at hp
+      | some q =>
+        obtain ⟨h1, r1⟩ := p
+        obtain ⟨h2, rs⟩ := q
+        simp only [hq, hq2, Option.some.injEq, Prod.mk.injEq] at hp
+        obtain ⟨rfl, rfl⟩ := hp
+        have hs1 : ∀ b ∈ sites neg c e, b = true := fun b hb => hs b (by simp [sitesList, hb])
+        have hs2 : ∀ b ∈ sitesList neg c es, b = true := fun b hb => hs b (by simp [sitesList, hb])
+        have g1 := prep_good v e neg c true h1 r1 hv.1 hs1 hq
+        have g2 := prepList_good v es neg c h2 rs hv.2 hs2 hq2
+        refine ⟨by simp [sitesList, g1.len, g2.len], ?_, ?_, ?_⟩
+        · intro ks hks
+          simp only [List.mem_append] at hks
+          rcases hks with hks | hks
+          · exact g1.ne ks hks
+          · exact g2.ne ks hks
+        · intro hn
+          simp only [sitesList, List.append_eq_nil_iff] at hn
+          obtain ⟨rfl, e', rfl, _⟩ := g1.nos hn.1
+          obtain ⟨rfl, hl, hev⟩ := g2.nos hn.2
+          have he := g1.ev
+          simp only [allK, evalOpt, and3_true_left] at he
+          exact ⟨rfl, by simp [consOpt, hl], fun op => by simp [consOpt, evalList_cons, he, hev op]⟩
+        · intro hc
+          have he := g1.ev
+          have hl := g2.ev hc
+          rw [evalList_consOpt_and, allK_append, evalList_cons, ← he, ← hl]
+          simp only [op3]
+          exact and3_swap _ _ _
+end
+
 end Dawgs.C10
